@@ -40,7 +40,7 @@ theorem never_present_verdicts (p : Probe) (hd : p.disabled = false) (hs : p.sno
   simp [verdict, hd, hs, ha, he, hc, hb, hbe, hr]
 
 /-- a problem for a selector that is there now can only be an API error or the ALERTS rule -/
-theorem problem_implies_absent_or_error (p : Probe) (h : verdict p ≠ .none) (hne : verdict p ≠ .error) (hna : verdict p ≠ .alerts) :
+theorem problem_implies_absent_or_error (p : Probe) (h : verdict p ≠ .none) (hne : verdict p ≠ .error) (hna : verdict p ≠ .unknownAlert) :
     p.instantCount = 0 := by
   cases hc : p.instantCount with
   | zero => rfl
@@ -50,10 +50,23 @@ theorem problem_implies_absent_or_error (p : Probe) (h : verdict p ≠ .none) (h
     by_cases hd : (p.disabled || p.snoozed) = true
     · simp [hd] at h
     · by_cases hal : p.isAlerts = true
-      · simp [hd, hal] at hna
+      · by_cases hq : (p.alertNamed && !p.alertRuleStays) = true
+        · simp [hd, hal, hq] at hna
+        · simp [hd, hal, hq] at h
       · by_cases her : p.instantErr = true
         · simp [hd, hal, her] at hne
         · simp [hd, hal, her, hc] at h
+
+/-- step 0: an ALERTS selector is a problem exactly when an equality matcher names an alert that no rule of the checked
+set will fire (a `!=` or regexp matcher names nothing; a rule that is being removed fires nothing) -/
+theorem alerts_selector_verdict (p : Probe) (hd : p.disabled = false) (hs : p.snoozed = false) (ha : p.isAlerts = true) :
+    (verdict p = .unknownAlert ↔ (p.alertNamed = true ∧ p.alertRuleStays = false)) ∧
+    (verdict p ≠ .unknownAlert → verdict p = .none) := by
+  unfold verdict
+  cases hn : p.alertNamed <;> cases hr : p.alertRuleStays <;> simp [hd, hs, ha]
+
+example : verdict { (default : Probe) with isAlerts := true, alertNamed := true, alertRuleStays := false } = .unknownAlert := by decide
+example : verdict { (default : Probe) with isAlerts := true, alertNamed := false } = .none := by decide
 
 /-! "no time range" is "no sample on the grid" (C13 model of AppendSampleToRanges) -/
 open Pint.Range in
@@ -85,7 +98,7 @@ theorem samples_give_ranges (step : Int) (fp : Nat) (t : Int) (ts : List Int) : 
   exact grow ts _ (by simp [appendSample])
 
 /-! non-vacuity -/
-def neverThere : Probe := { isAlerts := false, disabled := false, snoozed := false, instantErr := false, instantCount := 0, bareEmpty := false, baseErr := false, baseRanges := 0, producer := false, otherServers := true, ignored := false }
+def neverThere : Probe := { isAlerts := false, alertNamed := false, alertRuleStays := false, disabled := false, snoozed := false, instantErr := false, instantCount := 0, bareEmpty := false, baseErr := false, baseRanges := 0, producer := false, otherServers := true, ignored := false }
 example : verdict neverThere = .bug := by decide
 example : verdict { neverThere with instantCount := 3 } = .none := by decide
 
